@@ -151,6 +151,14 @@ class ModelAudit:
 					out.append(("hooks", "%d leftover %s on module '%s' (%s)"
 						% (len(extra), d, name, type(dict(
 						self.model.named_modules())[name]).__name__)))
+		for name, b in self.before["hooks"].items():
+			h = after["hooks"].get(name, {})
+			for d, keys in b.items():
+				gone = [k for k in keys if k not in h.get(d, [])]
+				if gone:
+					out.append(("hooks", "%d hook(s) that were registered "
+						"before the call were removed from %s of module '%s'"
+						% (len(gone), d, name)))
 		for k, v in after["state"].items():
 			if self.before["state"].get(k) != v:
 				out.append(("state", "parameter/buffer '%s' changed" % k))
